@@ -301,6 +301,22 @@ func isAllocatingFunc(w *World, fi *FuncInfo, named *types.Named) bool {
 
 // checkDiscipline is rule R09.1 / R09.1u; filter restricts it to some structs.
 func checkDiscipline(w *World, r *Report, la *LockAnalysis, filter func(sharedStruct) bool) {
+	// wrapper types: a field of a shared struct whose type is a small struct of the repository with
+	// a lock (or sync/atomic state) of its own - `cache analysisCache{mu, entries}`. The state moved
+	// into the wrapper is shared exactly like its owner; its fields get the inferred discipline
+	// (R09.1u: atomic-only, constructor-only, or one common lock on every access).
+	wrappers, wrapperOwner := discoverWrappers(w)
+	sharedStructs := append(append([]sharedStruct{}, sharedStructs...), wrappers...)
+	if filter != nil {
+		inner := filter
+		filter = func(ss sharedStruct) bool {
+			if o, ok := wrapperOwner[ss.name]; ok {
+				return inner(o)
+			}
+			return inner(ss)
+		}
+	}
+	hasWrapper := wrapperUsers
 	table := map[*types.Var]guardRow{}
 	for _, row := range guardTable() {
 		// a row whose field (or lock) no longer exists does not take the other rows down:
@@ -315,6 +331,12 @@ func checkDiscipline(w *World, r *Report, la *LockAnalysis, filter func(sharedSt
 				if ss.name == row.strct && filter != nil && filter(ss) {
 					selected = true
 				}
+			}
+			if selected && hasWrapper[row.strct] {
+				// the state (or its lock) moved into a wrapper type of this struct: the wrapper's own
+				// fields are checked below by inference
+				r.OK("R09.1", "table:"+row.strct+"."+row.field, 0, false, "%s.%s (%s) is no longer a field of %s in that form; %s now has wrapper-typed state whose fields are checked by inference (R09.1u)", row.strct, row.field, row.kind, row.strct, row.strct)
+				continue
 			}
 			if selected {
 				r.Undecided("R09.1", "table:"+row.strct+"."+row.field, 0, "the guarded-by table names %s.%s (%s), which no longer exists in that form: the discipline of this state cannot be decided (%s)", row.strct, row.field, row.kind, err)
@@ -660,4 +682,67 @@ func addrUnderParamLock(w *World, la *LockAnalysis, a *Access, guard *types.Var)
 		return good && uses > 0
 	}
 	return false
+}
+
+// wrapperUsers: the shared structs that have a wrapper-typed field (set by discoverWrappers).
+var wrapperUsers map[string]bool
+
+// discoverWrappers finds the wrapper types of the shared structs (see checkDiscipline).
+func discoverWrappers(w *World) ([]sharedStruct, map[string]sharedStruct) {
+	known := map[string]bool{}
+	for _, ss := range sharedStructs {
+		known[ss.name] = true
+	}
+	short := func(p *types.Package) string {
+		switch p {
+		case w.Godi.Types:
+			return "godi"
+		case w.Graph.Types:
+			return "graph"
+		case w.Refl.Types:
+			return "reflection"
+		}
+		return ""
+	}
+	var out []sharedStruct
+	owner := map[string]sharedStruct{}
+	wrapperUsers = map[string]bool{}
+	for _, ss := range sharedStructs {
+		if ss.confined {
+			continue
+		}
+		_, st := w.Struct(w.pkgByShort(ss.pkg), ss.name)
+		for i := 0; i < st.NumFields(); i++ {
+			n := namedOf(st.Field(i).Type())
+			if n == nil || n.Obj().Pkg() == nil || short(n.Obj().Pkg()) == "" {
+				continue
+			}
+			if _, isW := owner[n.Obj().Name()]; isW {
+				wrapperUsers[ss.name] = true // a second owner of an already discovered wrapper type
+				continue
+			}
+			if known[n.Obj().Name()] {
+				continue
+			}
+			wst, ok := n.Underlying().(*types.Struct)
+			if !ok {
+				continue
+			}
+			hasSync := false
+			for j := 0; j < wst.NumFields(); j++ {
+				if isSyncType(wst.Field(j).Type()) {
+					hasSync = true
+				}
+			}
+			if !hasSync {
+				continue
+			}
+			known[n.Obj().Name()] = true
+			wss := sharedStruct{short(n.Obj().Pkg()), n.Obj().Name(), false, ""}
+			out = append(out, wss)
+			owner[wss.name] = ss
+			wrapperUsers[ss.name] = true
+		}
+	}
+	return out, owner
 }
